@@ -242,7 +242,12 @@ pub fn fine_configs(thorough: bool) -> Vec<(String, Vec<Vec<Call>>)> {
     if !thorough {
         // two quantifiers over arrays WRITTEN in the rule whose items are operations: whatever tells "operation" from
         // "literal" (a table built on first use) is complete before anybody relies on it - cold start included
-        let (q1, q2) = (Arc::new(json!({"all": [[{"var": "xs.0"}, {"+": [1, 1]}], {">": [{"var": ""}, 0]}]})), Arc::new(json!({"some": [[{"var": "zz"}, {"var": "c.d"}], {"===": [{"var": ""}, "cd"]}]})));
+        // (an item taken for a literal object is truthy; evaluated, these are null)
+        let (q1, q2) = (Arc::new(json!({"all": [[{"var": "zz"}], {"var": ""}]})), Arc::new(json!({"some": [[{"var": "zq"}], {"var": ""}]})));
+        // two conversions of numeric strings (one padded with white space, one seen for the first time): whatever is
+        // remembered about converted texts behaves the same with and without contention
+        let (n1, n2) = (Arc::new(json!({"==": [" 1", 1]})), Arc::new(json!({"-": ["\u{a0}5"]})));
+        v.push(("fine:num-padded|num-fresh".to_string(), vec![vec![Call { rule: n1, data: d1.clone() }], vec![Call { rule: n2, data: d2.clone() }]]));
         v.push(("fine:all-literal|some-literal".to_string(), vec![vec![Call { rule: q1, data: d1.clone() }], vec![Call { rule: q2, data: d1.clone() }]]));
     }
     if extra.len() == 2 {
